@@ -316,6 +316,30 @@ class Builder:
                     ast.fix_missing_locations(p_)
                     frontier = self._stmt(p_, frontier, frame, ctx)
                 return frontier
+            # `x = any(<generator>)` / `x = all(<generator>)`: the flag loop it stands for (the generator is consumed up to the deciding element)
+            if isinstance(st, ast.Assign) and len(st.targets) == 1 and isinstance(st.targets[0], ast.Name) and isinstance(st.value, ast.Call) \
+                    and isinstance(st.value.func, ast.Name) and st.value.func.id in ('any', 'all') and len(st.value.args) == 1 and not st.value.keywords \
+                    and isinstance(st.value.args[0], ast.GeneratorExp) and len(st.value.args[0].generators) == 1 \
+                    and isinstance(st.value.args[0].generators[0].target, (ast.Name, ast.Tuple)):
+                is_any = st.value.func.id == 'any'
+                comp = st.value.args[0]
+                gen = comp.generators[0]
+                nm = st.targets[0].id
+                hit = [ast.Assign(targets=[ast.Name(nm, ast.Store())], value=ast.Constant(is_any)), ast.Break()]
+                test = comp.elt if is_any else ast.UnaryOp(op=ast.Not(), operand=comp.elt)
+                body = [ast.If(test=test, body=hit, orelse=[])]
+                for c in reversed(gen.ifs):
+                    body = [ast.If(test=c, body=body, orelse=[])]
+                parts = [ast.Assign(targets=[ast.Name(nm, ast.Store())], value=ast.Constant(not is_any)),
+                         ast.For(target=gen.target, iter=gen.iter, body=body, orelse=[])]
+                for p_ in parts:
+                    ast.copy_location(p_, st)
+                    for x in ast.walk(p_):
+                        if not hasattr(x, 'lineno'):
+                            ast.copy_location(x, st)
+                    ast.fix_missing_locations(p_)
+                    frontier = self._stmt(p_, frontier, frame, ctx)
+                return frontier
             # property setter:  self.p = v
             if isinstance(st, ast.Assign) and len(st.targets) == 1:
                 t = st.targets[0]
